@@ -199,6 +199,125 @@ fn run_grouped(cx: &mut Ctx, s: &Schema, t: &Table, db: &mut Db, rows_sx: &str, 
     }
 }
 
+fn bag_match(got: &[Vec<vibesql_types::SqlValue>], want: &[Vec<RefVal>]) -> bool {
+    if got.len() != want.len() {
+        return false;
+    }
+    let mut used = vec![false; got.len()];
+    'w: for w in want {
+        for (i, g) in got.iter().enumerate() {
+            if !used[i] && g.len() == w.len() && g.iter().zip(w).all(|(a, b)| val_matches(a, b)) {
+                used[i] = true;
+                continue 'w;
+            }
+        }
+        return false;
+    }
+    true
+}
+
+fn lit_of_ref(v: &RefVal) -> Option<Lit> {
+    match v {
+        RefVal::Null => Some(Lit::Null),
+        RefVal::Int(i) => Some(Lit::I(*i as i64)),
+        RefVal::Str(s) => Some(Lit::S(s.clone())),
+        RefVal::Ratio(..) => None,
+    }
+}
+
+/// One statement, several aggregating query blocks (set operations, derived tables, CTEs) with
+/// identically spelled aggregates over DIFFERENT row sets, with and without GROUP BY: every block
+/// must see its own rows (per-group / per-block aggregate state must not leak between blocks).
+fn run_multiblock(cx: &mut Ctx, s: &Schema, t: &Table, db: &mut Db, r: &mut Rng) {
+    let f = *r.pick(&Fn_::ALL);
+    let it = if f == Fn_::Count && r.chance(1, 3) { Item { f, arg: None, distinct: false } } else { Item { f, arg: Some(*r.pick(&[0usize, 2])), distinct: r.chance(1, 4) } };
+    let a = it.sql(s);
+    let k = r.range(-1, 4);
+    let p1 = Pred::Cmp { op: Cmp::Le, col: 1, lit: Lit::I(k), reversed: false };
+    let p2 = Pred::Cmp { op: Cmp::Gt, col: 1, lit: Lit::I(k), reversed: false };
+    let (w1, w2) = (p1.sql(s), p2.sql(s));
+    let rows1 = ref_filter(&[p1.clone()], &t.rows).unwrap_or_default();
+    let rows2 = ref_filter(&[p2.clone()], &t.rows).unwrap_or_default();
+    let (a1, a2) = (ref_agg(&it, &rows1), ref_agg(&it, &rows2));
+    let star = Item { f: Fn_::Count, arg: None, distinct: false };
+    fn groups_of<'a>(rows: &[&'a Vec<Lit>]) -> Vec<(Lit, Vec<&'a Vec<Lit>>)> {
+        let mut g: Vec<(Lit, Vec<&'a Vec<Lit>>)> = vec![];
+        for row in rows {
+            match g.iter_mut().find(|(k, _)| *k == row[2]) {
+                Some((_, v)) => v.push(*row),
+                None => g.push((row[2].clone(), vec![*row])),
+            }
+        }
+        g
+    }
+    let refkey = |l: &Lit| match l {
+        Lit::Null => RefVal::Null,
+        Lit::I(i) => RefVal::Int(*i as i128),
+        Lit::S(x) => RefVal::Str(x.clone()),
+    };
+    let all: Vec<&Vec<Lit>> = t.rows.iter().collect();
+    let is_avg = it.f == Fn_::Avg;
+    let mut cases: Vec<(&str, String, Vec<Vec<RefVal>>)> = vec![];
+    cases.push(("union-all", format!("SELECT {a} FROM t WHERE {w1} UNION ALL SELECT {a} FROM t WHERE {w2}"), vec![vec![a1.clone()], vec![a2.clone()]]));
+    cases.push(("union-all-3", format!("SELECT {a} FROM t WHERE {w2} UNION ALL SELECT {a} FROM t WHERE {w1} UNION ALL SELECT {a} FROM t WHERE {w2}"), vec![vec![a2.clone()], vec![a1.clone()], vec![a2.clone()]]));
+    if !is_avg {
+        let r1 = vec![ref_agg(&star, &rows1), a1.clone()];
+        let r2 = vec![ref_agg(&star, &rows2), a2.clone()];
+        cases.push(("union-distinct", format!("SELECT COUNT(*), {a} FROM t WHERE {w1} UNION SELECT COUNT(*), {a} FROM t WHERE {w2}"), if r1 == r2 { vec![r1] } else { vec![r1, r2] }));
+        cases.push(("except", format!("SELECT {a} FROM t WHERE {w1} EXCEPT SELECT {a} FROM t WHERE {w2}"), if a1 == a2 { vec![] } else { vec![vec![a1.clone()]] }));
+        cases.push(("intersect", format!("SELECT {a} FROM t WHERE {w1} INTERSECT SELECT {a} FROM t WHERE {w2}"), if a1 == a2 { vec![vec![a1.clone()]] } else { vec![] }));
+    }
+    {
+        let mut want = vec![];
+        for rows in [&rows1, &rows2] {
+            for (k, g) in groups_of(rows) {
+                want.push(vec![refkey(&k), ref_agg(&it, &g)]);
+            }
+        }
+        cases.push(("union-all-grouped", format!("SELECT c2, {a} FROM t WHERE {w1} GROUP BY c2 UNION ALL SELECT c2, {a} FROM t WHERE {w2} GROUP BY c2"), want));
+    }
+    {
+        let g = groups_of(&rows1);
+        let max_n = g.iter().map(|(_, v)| v.len() as i128).max();
+        cases.push((
+            "derived-count-of-groups",
+            format!("SELECT COUNT(*), MAX(n) FROM (SELECT c2 AS g, COUNT(*) AS n FROM t WHERE {w1} GROUP BY c2) d"),
+            vec![vec![RefVal::Int(g.len() as i128), max_n.map(RefVal::Int).unwrap_or(RefVal::Null)]],
+        ));
+    }
+    if !is_avg && it.arg.is_some() {
+        // outer aggregate spelled like the inner one, over the inner results
+        let c = it.arg.unwrap();
+        let col = &s.cols[c].0;
+        let inner: Vec<Lit> = groups_of(&all).iter().filter_map(|(_, g)| lit_of_ref(&ref_agg(&it, g))).collect();
+        let fake: Vec<Vec<Lit>> = inner.iter().map(|v| { let mut row = vec![Lit::Null; 4]; row[c] = v.clone(); row }).collect();
+        let fake_refs: Vec<&Vec<Lit>> = fake.iter().collect();
+        cases.push(("derived-same-spelling", format!("SELECT {a} FROM (SELECT c2 AS g, {a} AS {col} FROM t GROUP BY c2) d"), vec![vec![ref_agg(&it, &fake_refs)]]));
+        let nn = inner.iter().filter(|v| **v != Lit::Null).count();
+        cases.push(("cte-grouped", format!("WITH c AS (SELECT c2 AS g, {a} AS x FROM t GROUP BY c2) SELECT COUNT(*), COUNT(x) FROM c"), vec![vec![RefVal::Int(inner.len() as i128), RefVal::Int(nn as i128)]]));
+    }
+    cases.push((
+        "cte-cross",
+        format!("WITH c AS (SELECT {a} AS x FROM t WHERE {w1}) SELECT {a}, MIN(x) FROM t, c WHERE {w2}"),
+        vec![vec![a2.clone(), if rows2.is_empty() { RefVal::Null } else { a1.clone() }]],
+    ));
+    for (kind, sql, want) in cases {
+        cx.rep.case(&format!("multiblock|{}|{}", t.rows.len(), sql), a1 != a2);
+        cx.rep.count(&format!("multiblock_{}", kind));
+        for (path, out) in both(db, &sql) {
+            let ok = matches!(&out, Out::Rows(got) if bag_match(got, &want));
+            if !ok {
+                cx.rep.fail(
+                    FailKind::Oracle,
+                    None,
+                    &format!("multi-block statement ({}) differs from the SQL definition ({})", kind, path),
+                    &replay(s, t, &sql, &format!("engine ({}): {}\ndefinition (bag of rows): {:?}", path, out.brief(), want)),
+                );
+            }
+        }
+    }
+}
+
 fn rows_sx_of(t: &Table) -> String {
     vharness::qast::rows_sx(&t.rows).to_string()
 }
@@ -404,6 +523,41 @@ fn float_stream(cx: &mut Ctx, rng: &mut Rng, tables: u64) {
     }
 }
 
+/// Value-domain stream: every aggregate over a DOUBLE and a BIGINT column against the definition
+/// computed directly (MIN / MAX / COUNT exactly, SUM / AVG to 1e-9 relative), on both paths.
+fn num_stream(cx: &mut Ctx, rng: &mut Rng, thorough: bool) {
+    for (n, d_dom, b_dom) in num_plan(rng, thorough) {
+        let c = gen_num_case(rng, n, d_dom, b_dom);
+        let mut db = load_num_case(&c);
+        cx.rep.count(&format!("num_domain_d_{}", d_dom));
+        cx.rep.count(&format!("num_domain_b_{}", b_dom));
+        cx.rep.count(&format!("num_size_{}", n));
+        for st in num_statements(&c) {
+            let sql = st.sql();
+            let want = num_expected(&c, &st);
+            cx.rep.case(&format!("num|{}|{}|{}|{}|{}", n, d_dom, b_dom, c.null_pct, sql), true);
+            for (path, out) in both(&mut db, &sql) {
+                cx.rep.count("num_statements(direct oracle only)");
+                // the 1e-9 epsilon of columnar/filter.rs compare_values (C03's known finding, pinned by
+                // tpch_columnar_q6) is applied by the table scan's predicate pushdown on the row path as
+                // well: which rows a WHERE selects is not C07's subject, the class is skipped here
+                if epsilon_class(&c, &st) {
+                    cx.rep.count("num_skipped(WHERE within 1e-9 of the literal: C03/filter-epsilon class)");
+                    continue;
+                }
+                if !num_row_ok(&st, &out, &want) {
+                    cx.rep.fail(
+                        FailKind::Oracle,
+                        None,
+                        &format!("aggregate differs from the SQL definition (value domain stream, column {}, {})", st.col, path),
+                        &format!("{}{};\nengine ({}): {}\ndefinition: {:?}", num_case_text(&c), sql, path, out.brief(), want),
+                    );
+                }
+            }
+        }
+    }
+}
+
 fn main() {
     engine::silence_panics();
     let args = Args::parse("C07");
@@ -443,6 +597,10 @@ fn main() {
             for f in &t.fill {
                 cx.rep.count(&format!("column_fill_{}", f));
             }
+            if t.rows.len() <= 200 {
+                run_multiblock(&mut cx, &s, &t, &mut db, &mut r);
+                run_multiblock(&mut cx, &s, &t, &mut db, &mut r);
+            }
             for qi in 0..per_table {
                 if qi % 2 == 0 {
                     let tail = qi % 3 == 0;
@@ -462,6 +620,8 @@ fn main() {
         }
         let mut r = rng.fork();
         float_stream(&mut cx, &mut r, args.n(10, 100));
+        let mut r = rng.fork();
+        num_stream(&mut cx, &mut r, !args.quick());
     }
     columnar(true);
     std::process::exit(rep.finish());
